@@ -352,7 +352,10 @@ func (v *SequenceDiagramVisitor) visitEndpointCollection(e *EndpointCollectionEl
 func (v *SequenceDiagramVisitor) visitEndpoint(e *EndpointElement) error {
 	sender := e.sender(v)
 	agent := e.agent(v)
-	app := e.application(v.m)
+	app, ok := v.m.Apps[e.appName]
+	if !ok {
+		return fmt.Errorf("app %q not found", e.appName)
+	}
 	endpoint := e.endpoint(app)
 
 	appPatterns := syslutil.MakeStrSetFromAttr("patterns", app.Attrs)
